@@ -346,8 +346,8 @@ class ModesStream(es.E2EStream):
         cases = [dict(WITNESS_CASE)]                                   # the recorded F7 witness first
         for k in range(n):
             cases.append(dict(ds_seed=base.randint(1, 10 ** 9), nq=nq, extra=C08_PARAMS[k % len(C08_PARAMS)], gen='joinrich'))
-        for k in range(2 if tier == 'quick' else 8):                   # cross-reference chimeras: one or two queries only
-            cases.append(dict(ds_seed=base.randint(1, 10 ** 9), nq=1 + k % 2, extra=[], gen='crossref'))
+        for k in range(5 if tier == 'quick' else 16):                  # cross-reference chimeras: a single query, so that its two records
+            cases.append(dict(ds_seed=base.randint(1, 10 ** 9), nq=1, extra=[], gen='crossref'))    # are adjacent in every row order
         outs = prewarm(cases)
         # boundary runs: the same data set again with -diff equal to the reference gap of one of its joined records (gap == maxDifference:
         # the parts do not depend on -diff, so that record must be joined again) and with -diff one below it
